@@ -337,9 +337,12 @@ func (g *TemplateGenerator) getTemplate(ctx context.Context) (string, *gojsonsch
 			continue
 		}
 		var remoteTemplate *RemoteTemplate
-		if cachedRemoteTemplate, ok := g.remoteTemplateCache[g.templateName]; !ok {
+		// A cached entry holds a template together with its schema, so the
+		// same template used with a different template-schema is a different entry.
+		cacheKey := g.templateName + "\x00" + g.templateSchema
+		if cachedRemoteTemplate, ok := g.remoteTemplateCache[cacheKey]; !ok {
 			remoteTemplate = NewRemoteTemplate(g.templateName, g.templateSchema)
-			g.remoteTemplateCache[g.templateName] = remoteTemplate
+			g.remoteTemplateCache[cacheKey] = remoteTemplate
 		} else {
 			remoteTemplate = cachedRemoteTemplate
 		}
